@@ -32,7 +32,11 @@ pub fn draw_job(rng: &mut Rng, c: &Corpus) -> Job {
         // prefixes, several files of identical layout, programs on <std>),
         // as they are and as token-level mutants
         let mut disk = crate::disk::Disk::new(corpus::PROJ);
-        let root = match rng.below(14) {
+        let root = match rng.below(15) {
+            14 => {
+                disk.add_file("big.asm", crate::c10::big_program(rng));
+                "big.asm".to_string()
+            }
             9 | 10 | 11 | 12 | 13 => {
                 disk.add_file("mix.asm", crate::c10::feature_mix_program(rng));
                 "mix.asm".to_string()
@@ -72,6 +76,16 @@ pub fn draw_job(rng: &mut Rng, c: &Corpus) -> Job {
         if rng.chance(1, 2) {
             spec.groups[0].format = Some(rng.pick(&["symbols", "annotated", "addrspan", "tcgame", "mesen-mlb", "intelhex"]).to_string());
             spec.groups[0].out = Some("out.txt".to_string());
+        }
+        if rng.chance(1, 2) {
+            // a second output group in any format (a check that only runs
+            // while a later group is produced must not leave the first behind)
+            // (formats that carry addresses a little more often)
+            let f = if rng.chance(2, 5) { rng.pick(&["intelhex", "intelhex", "mif", "addrspan", "logisim16", "annotated"]).to_string() } else { rng.pick(cmdline::FORMAT_NAMES).to_string() };
+            spec.groups.push(crate::job::Group { format: Some(f), out: Some("second.out".to_string()), print: false });
+            if spec.groups[0].out.is_none() {
+                spec.groups[0].out = Some("first.out".to_string());
+            }
         }
         cmdline::draw_knobs(rng, &mut spec);
         return Job::from_spec(&name, disk, spec);
